@@ -68,7 +68,7 @@ ARITH_REASONS = {
     "frequency::estimate_frequency|rem": "total: PRIME is a non-zero constant",
     "Reservoir::fill|div": "guarded: k = 16 (Reservoir::new is only called with K)",
     "Reservoir::fill|overflow:Add": "arith: byte and position counters of one source; `floor() as usize + 1` saturates only if fastrand::f64() returns exactly 0.0 "
-                                    "(ln = -inf; probability 2^-53 per draw) — noted in DESIGN 13.5, not reachable by choice of input",
+                                    "(ln = -inf; probability 2^-53 per draw) — noted in DESIGN 13.6, not reachable by choice of input",
     "Reservoir::fill|overflow:Mul": "arith: (skip + 1) * 16 with skip bounded as above",
     "Reservoir::fill|partial:chunks_mut": "guarded: k = 16",
 }
